@@ -6,7 +6,7 @@ package main
 //                      records, per seed, which rules of which property fired
 //                      when the seed was admitted.  The property's check must
 //                      still fire one of those rules on the patched tree.
-//   refactors*/<id>-*, tiny*/<id>-*   behaviour-preserving edits of the code
+//   refactors*/<id>-*, tiny*/<id>-*   behaviour-preserving edits (refactors5: harmless additive commits) of the code
 //                      realising property <id>; the property's check must
 //                      report nothing new on the patched tree.
 //
@@ -30,7 +30,7 @@ import (
 	"sync"
 )
 
-var benignCorpora = []string{"refactors", "refactors2", "refactors3", "refactors4", "tiny", "tiny2"}
+var benignCorpora = []string{"refactors", "refactors2", "refactors3", "refactors4", "refactors5", "tiny", "tiny2"}
 
 type corpusResult struct {
 	SeedsTried, SeedsCaught, SeedsSkipped    int
